@@ -1,9 +1,704 @@
 import BronVerif.Drive.Common
-/-! Driver handlers for C17. -/
-namespace BronVerif.Drive.C17
-open BronVerif BronVerif.Drive
+import BronVerif.Model.BigNum
+/-!
+Driver handlers for C17 (big-number and modular arithmetic).
 
-def handle (op : String) (_args : List String) (_rhs : String) : Verdict :=
-  .unsupported ("C17 op " ++ op)
+Verdict discipline: `spec` wherever the model value is the mathematical truth (all arithmetic without
+truncation, comparisons, gcd, inverses, exponentiation, Jacobi, CRT, …); `mirror` where the line shows a
+documented *convention* of the API (a capacity that truncates, limb-granular `LshCap`, announced lengths,
+"composite modulus: only integer perfect squares are recognised"); relational checks where the API may
+return any one of several correct answers (square roots, random sampling).  Each root cause of a known
+deviation has its own stable key.
+-/
+namespace BronVerif.Drive.C17
+open BronVerif BronVerif.Drive BronVerif.BigNum
+
+/-- operand `<hex>/<cap>`: value as passed and announced capacity -/
+structure CV where
+  v : Int
+  c : Int
+
+def parseCV (s : String) : Option CV :=
+  match s.splitOn "/" with
+  | [a, b] => do let v ← hexToInt? a; let c ← b.toInt?; pure ⟨v, c⟩
+  | _ => none
+
+def CV.nat (x : CV) : Nat := trunc x.v.natAbs x.c
+def CV.int (x : CV) : Int := truncI x.v x.c
+
+def rN (v : Nat) (c : Int) : String := natToHex v ++ "/" ++ toString c
+def rI (v : Int) (c : Int) : String := intToHex v ++ "/" ++ toString c
+def hx (v : Nat) : String := natToHex v
+def hi (v : Int) : String := intToHex v
+def b01 (b : Bool) : String := if b then "1" else "0"
+
+/-- capacity argument: `_` is the default -/
+def parseCap (s : String) : Option (Option Int) := if s == "_" then some none else s.toInt?.map some
+
+def imax (a b : Int) : Int := if a < b then b else a
+def imin (a b : Int) : Int := if a < b then a else b
+
+def cmpS (a b : Int) : String := if a < b then "lt" else if a = b then "eq" else "gt"
+
+def optS (o : Option String) : String := match o with | none => "none" | some s => "ok:" ++ s
+
+/-- different keys for different root causes -/
+def classify (key : String) (alias : String) (aliasKey : String) (model rhs : String) : Verdict :=
+  if model == rhs then .ok
+  else if rhs.startsWith "panic:" then .bad ((if key.endsWith "-wrong" then (key.dropEnd 6).toString else key) ++ "-panic") ("expected=" ++ model ++ " observed=" ++ rhs)
+  else if alias != "a0" then .bad aliasKey ("output aliases input " ++ alias ++ " expected=" ++ model ++ " observed=" ++ rhs)
+  else .bad key ("expected=" ++ model ++ " observed=" ++ rhs)
+
+/-- spec when no truncation happens (cap at least `need`), mirror of the truncation convention otherwise -/
+def specOrMirror (key : String) (truncating : Bool) (model rhs : String) : Verdict :=
+  if truncating then mirror model rhs else spec key model rhs
+
+def bytesHex (bs : List Nat) : String :=
+  if bs.isEmpty then "-" else String.join (bs.map fun b => byteToHex (UInt8.ofNat b))
+
+def parseBytes (s : String) : Option (List Nat) := (hexToBytes? s).map fun b => b.toList.map UInt8.toNat
+
+def ceilDiv (a b : Nat) : Nat := (a + b - 1) / b
+
+/-- drop the `/<announced>` suffixes of a result `ok:<v>/<c>,<v>/<c>` -/
+def stripCaps (s : String) : String :=
+  ",".intercalate ((s.splitOn ",").map fun t => (t.splitOn "/").headD "")
+
+/-- bitwise operation on integers through two's complement on a common width -/
+def intBitwise (f : Nat → Nat → Nat) (x y : Int) : Int :=
+  let w := max (bitLen x.natAbs) (bitLen y.natAbs) + 2
+  let m : Nat := 2 ^ w
+  let r := f (x % (m : Int)).toNat (y % (m : Int)).toNat % m
+  if r ≥ m / 2 then (r : Int) - m else r
+
+def unit (a : Int) (m : Nat) : Bool := Nat.gcd (a % (m : Int)).toNat m == 1
+
+/-- `x^e mod m` for a signed exponent (negative: power of the inverse; undefined → none) -/
+def powModI (x : Nat) (e : Int) (m : Nat) : Option Nat :=
+  if e ≥ 0 then some (powMod x e.toNat m) else
+  if m = 1 then some 0 else
+  (invMod x m).map fun xi => powMod xi e.natAbs m
+
+def symMod (x : Int) (m : Nat) : Int := let r := x % (m : Int); if 2 * r ≥ m then r - m else r
+
+def inRangeSym (x : Int) (m : Nat) : Bool := decide (-(m : Int) ≤ 2 * x) && decide (2 * x < m)
+
+/-- the model's answer for a modular square root line (relational) -/
+def sqrtVerdict (m x : Nat) (rhs : String) : Verdict :=
+  if rhs.startsWith "ok:" then
+    match hexToNat? (rhs.drop 3).toString with
+    | some r => if r < m ∧ r * r % m = x % m then .ok else .bad "modsqrt-wrong-root" ("root does not square back: " ++ rhs)
+    | none => .unsupported "rhs"
+  else if rhs == "none" then
+    if m ≤ 2 then (if m = 1 then mirror "ok:0" rhs else .unsupported "m=2")
+    else if probablyPrime m then
+      (if isQR x m then .bad "modsqrt-missed-residue" ("quadratic residue modulo an odd prime, model root=" ++ optS ((sqrtMod x m).map hx)) else .ok)
+    else -- composite: the API documents that only integer perfect squares are recognised (mirror)
+      match sqrtExact? (x % m) with
+      | some r => mirror ("ok:" ++ hx r) rhs
+      | none => .ok
+  else .bad "modsqrt" ("unexpected result " ++ rhs)
+
+def natOp (name : String) (x y : Nat) : Nat :=
+  match name with
+  | "and" => x &&& y | "or" => x ||| y | _ => x ^^^ y
+
+/-- `a/b` in lowest terms with positive denominator, rendered `num|den` -/
+def ratCanon (n : Int) (d : Nat) : String :=
+  if n = 0 then "0|1" else
+  let g := Nat.gcd n.natAbs d
+  hi (n / (g : Int)) ++ "|" ++ hx (d / g)
+def ratS (n : Int) (d : Nat) : String := hi n ++ "|" ++ hx d
+
+def parseRat (s : String) : Option (Int × Nat) :=
+  match s.splitOn "|" with
+  | [a, b] => do let n ← hexToInt? a; let d ← hexToNat? b; pure (n, d)
+  | _ => none
+
+def ordS (a b : Int) : String := if a < b then "-1" else if a = b then "0" else "1"
+
+def primeForm (kind : String) (bits p : Nat) : Option String :=
+  if bitLen p ≠ bits then some "bitlen" else
+  if !probablyPrime p then some "composite" else
+  if kind == "blum" && p % 4 ≠ 3 then some "not-3-mod-4" else
+  if kind == "safe" && !probablyPrime ((p - 1) / 2) then some "not-safe" else none
+
+def handleNat (op : String) (args : List String) (rhs : String) : Verdict :=
+  match op, args with
+  | "n.add", [al, xs, ys, cs] | "n.sub", [al, xs, ys, cs] | "n.mul", [al, xs, ys, cs] =>
+    match parseCV xs, parseCV ys, parseCap cs with
+    | some x, some y, some cap =>
+      let need := if op == "n.add" then imax x.c y.c + 1 else if op == "n.sub" then imax x.c y.c else x.c + y.c
+      let c := cap.getD need
+      let v : Nat := if op == "n.add" then trunc (x.nat + y.nat) c
+        else if op == "n.sub" then (((x.nat : Int) - (trunc y.nat c : Int)) % ((2 ^ c.toNat : Nat) : Int)).toNat
+        else trunc (x.nat * y.nat) c
+      if c < need then mirror (rN v c) rhs else classify op al "nat-output-alias" (rN v c) rhs
+    | _, _, _ => .unsupported "args"
+  | "n.lsh", [_, xs, ss, cs] =>
+    match parseCV xs, ss.toNat?, parseCap cs with
+    | some x, some sh, some cap =>
+      let c := cap.getD (x.c + sh)
+      -- convention (mirrored): LshCap drops whole limbs only; bits between `cap` and the limb boundary stay
+      let v := (trunc x.nat c <<< sh) % 2 ^ (64 * ceilDiv c.toNat 64)
+      specOrMirror op (c < x.c + sh) (rN v c) rhs
+    | _, _, _ => .unsupported "args"
+  | "n.rsh", [_, xs, ss, cs] =>
+    match parseCV xs, ss.toNat?, parseCap cs with
+    | some x, some sh, some cap =>
+      let c := cap.getD (imax (x.c - sh) 0)
+      specOrMirror op (c < x.c - sh) (rN (trunc (x.nat >>> sh) c) c) rhs
+    | _, _, _ => .unsupported "args"
+  | "n.div", [al, xs, ys] =>
+    match parseCV xs, parseCV ys with
+    | some x, some y =>
+      -- announced lengths (convention, from CondAssign): quotient = numerator's; remainder = denominator's
+      -- (0 for an empty numerator), the larger of both when the output aliases an input
+      let rc := if x.c ≤ 0 then 0 else y.c
+      let model := if y.nat = 0 then "none" else "ok:" ++ rN (x.nat / y.nat) x.c ++ "," ++ rN (x.nat % y.nat) (if al == "a2" then imax x.c rc else rc)
+      classify op al "nat-div-alias" model rhs
+    | _, _ => .unsupported "args"
+  | "n.divvt", [al, xs, ys] =>
+    match parseCV xs, parseCV ys with
+    | some x, some y =>
+      -- values only: the announced lengths of the variable-time variants are not a stable convention
+      let model := if y.nat = 0 then "none" else "ok:" ++ hx (x.nat / y.nat) ++ "," ++ hx (x.nat % y.nat)
+      classify "divvt-short-numerator-wrong" al "divvt-alias-numerator" model (stripCaps rhs)
+    | _, _ => .unsupported "args"
+  | "n.gcd", [al, xs, ys] =>
+    match parseCV xs, parseCV ys with
+    | some x, some y => classify op al "nat-output-alias" (rN (Nat.gcd x.nat y.nat) (imax x.c y.c)) rhs
+    | _, _ => .unsupported "args"
+  | "n.coprime", [xs, ys] =>
+    match parseCV xs, parseCV ys with
+    | some x, some y => spec op (b01 (Nat.gcd x.nat y.nat == 1)) rhs
+    | _, _ => .unsupported "args"
+  | "n.lcm", [xs, ys] =>
+    match parseCV xs, parseCV ys with
+    | some x, some y => spec op (hx (Nat.lcm x.nat y.nat)) rhs
+    | _, _ => .unsupported "args"
+  | "n.sqrt", [xs] =>
+    match parseCV xs with
+    | some x =>
+      if rhs == "none" then
+        match sqrtExact? x.nat with
+        | some r => .bad "nat-sqrt-missed" ("perfect square, root=" ++ hx r)
+        | none => .ok
+      else match parseCV (rhs.drop 3).toString with
+        | some r => if rhs.startsWith "ok:" ∧ r.v ≥ 0 ∧ r.v.toNat * r.v.toNat = x.nat then mirror (rN r.v.toNat (imax x.c 64)) (rhs.drop 3).toString
+                    else .bad "nat-sqrt-wrong" ("root does not square back: " ++ rhs)
+        | none => .unsupported "rhs"
+    | none => .unsupported "args"
+  | "n.cmp", [xs, ys] =>
+    match parseCV xs, parseCV ys with
+    | some x, some y => spec op (cmpS x.nat y.nat) rhs
+    | _, _ => .unsupported "args"
+  | "n.preds", [xs] =>
+    match parseCV xs with
+    | some x =>
+      let v := x.nat
+      spec op (b01 (v == 0) ++ b01 (v != 0) ++ b01 (v == 1) ++ b01 (v % 2 == 1) ++ b01 (v % 2 == 0) ++ "," ++ toString (bitLen v) ++ "," ++ toString x.c) rhs
+    | none => .unsupported "args"
+  | "n.bit", [xs, is] =>
+    match parseCV xs, is.toNat? with
+    | some x, some i => spec op (toString ((x.nat >>> i) % 2) ++ "," ++ toString ((x.nat >>> (8 * (i / 8))) % 256)) rhs
+    | _, _ => .unsupported "args"
+  | "n.bytes", [xs, ls] =>
+    match parseCV xs, ls.toNat? with
+    | some x, some ln =>
+      spec op (bytesHex (natToBytes x.nat (ceilDiv x.c.toNat 8)) ++ "," ++ bytesHex (natToBytes x.nat ln)) rhs
+    | _, _ => .unsupported "args"
+  | "n.frombytes", [bs] =>
+    match parseBytes bs with
+    | some b => spec op (rN (bytesToNat b) (8 * b.length)) rhs
+    | none => .unsupported "args"
+  | "n.and", [_, xs, ys, cs] | "n.or", [_, xs, ys, cs] | "n.xor", [_, xs, ys, cs] | "n.not", [_, xs, ys, cs] =>
+    match parseCV xs, parseCV ys, parseCap cs with
+    | some x, some y, some cap =>
+      let need := if op == "n.not" then x.c else imax x.c y.c
+      let c := cap.getD need
+      let v := if op == "n.not" then 2 ^ c.toNat - 1 - trunc x.nat c else trunc (natOp (op.drop 2).toString x.nat y.nat) c
+      specOrMirror op (c < need) (rN v c) rhs
+    | _, _, _ => .unsupported "args"
+  | "n.setbit", [xs, is, bs] =>
+    match parseCV xs, is.toNat?, bs.toNat? with
+    | some x, some i, some b =>
+      let cleared := x.nat - (if (x.nat >>> i) % 2 = 1 then 2 ^ i else 0)
+      spec op (rN (cleared + b * 2 ^ i) (imax x.c (i + 1))) rhs
+    | _, _, _ => .unsupported "args"
+  | "n.resize", [xs, cs] =>
+    match parseCV xs, parseCap cs with
+    | some x, some cap => let c := cap.getD x.c; specOrMirror op (c < x.c) (rN (trunc x.nat c) c) rhs
+    | _, _ => .unsupported "args"
+  | "n.select", [ch, xs, ys] =>
+    match parseCV xs, parseCV ys with
+    | some x, some y => spec op (rN (if ch == "0" then x.nat else y.nat) (imax x.c y.c)) rhs
+    | _, _ => .unsupported "args"
+  | "n.incr", [xs] => match parseCV xs with
+    | some x => spec op (rN (x.nat + 1) (imax x.c 1 + 1)) rhs
+    | none => .unsupported "args"
+  | "n.decr", [xs] => match parseCV xs with
+    | some x => -- convention: 0 - 1 wraps modulo 2^cap
+      let c := imax x.c 1
+      specOrMirror op (x.nat = 0) (rN (((x.nat : Int) - 1) % ((2 ^ c.toNat : Nat) : Int)).toNat c) rhs
+    | none => .unsupported "args"
+  | "n.double", [xs] => match parseCV xs with
+    | some x => spec op (rN (2 * x.nat) (x.c + 1)) rhs
+    | none => .unsupported "args"
+  | "n.u64", [xs] => match parseCV xs with
+    | some x => spec op (hx x.nat ++ "," ++ rN x.nat 64) rhs
+    | none => .unsupported "args"
+  | "n.abs", [xs] => match parseCV xs with
+    | some x => spec op (rN x.int.natAbs x.c ++ "," ++ rN x.int.natAbs x.c) rhs
+    | none => .unsupported "args"
+  | "n.consts", [] => spec op "0/1,1/1,2/2,3/2" rhs
+  | "n.prime", [xs] => match parseCV xs with
+    | some x => spec "probable-prime" (b01 (probablyPrime x.nat)) rhs
+    | none => .unsupported "args"
+  | "n.randlh", [ls, hs] =>
+    match parseCV ls, parseCV hs with
+    | some l, some h =>
+      if rhs == "err" then (if l.nat ≥ h.nat then .ok else .bad "randlh-refused" "non-empty range refused")
+      else match hexToNat? rhs with
+        | some v => if l.nat ≤ v ∧ v < h.nat then .ok else .bad "randlh-out-of-range" rhs
+        | none => .bad "randlh" rhs
+    | _, _ => .unsupported "args"
+  | "n.keeps", [_, xs, ys, _] =>
+    match parseCV xs, parseCV ys with
+    | some x, some y => spec "operand-clobbered" (rN x.nat x.c ++ "," ++ rN y.nat y.c) rhs
+    | _, _ => .unsupported "args"
+  | _, _ => .unsupported ("C17 op " ++ op)
+
+def handleInt (op : String) (args : List String) (rhs : String) : Verdict :=
+  match op, args with
+  | "i.add", [al, xs, ys, cs] | "i.sub", [al, xs, ys, cs] | "i.mul", [al, xs, ys, cs] =>
+    match parseCV xs, parseCV ys, parseCap cs with
+    | some x, some y, some cap =>
+      let need := if op == "i.mul" then x.c + y.c else imax x.c y.c + 1
+      let c := cap.getD need
+      let v : Int := if op == "i.add" then x.int + y.int else if op == "i.sub" then x.int - y.int else x.int * y.int
+      if c < need ∧ !(al == "a2" && op != "i.mul") then
+        -- truncating capacity (convention): the result is correct modulo 2^cap, magnitude below 2^cap
+        match parseCV rhs with
+        | some r =>
+          let m : Int := ((2 ^ c.toNat : Nat) : Int)
+          if r.c = c ∧ (r.v - v) % m = 0 ∧ r.v.natAbs < 2 ^ c.toNat then .ok else .diff (rI (truncI v c) c)
+        | none => .diff (rI (truncI v c) c)
+      else classify op al (if al == "a2" && op != "i.mul" then "int-add-alias-rhs" else "int-output-alias") (rI v c) rhs
+    | _, _, _ => .unsupported "args"
+  | "i.div", [al, xs, ys] | "i.divvt", [al, xs, ys] | "i.ediv", [al, xs, ys] | "i.edivvt", [al, xs, ys] =>
+    match parseCV xs, parseCV ys with
+    | some x, some y =>
+      let vt := op == "i.divvt" || op == "i.edivvt"
+      let eu := op == "i.ediv" || op == "i.edivvt"
+      let qr := if eu then edivmod x.int y.int else tdivmod x.int y.int
+      let model := if y.int = 0 then "none" else "ok:" ++ rI qr.1 x.c ++ "," ++ rI qr.2 y.c
+      let modelV := if y.int = 0 then "none" else "ok:" ++ hi qr.1 ++ "," ++ hi qr.2
+      if vt then classify "divvt-short-numerator-wrong" al "divvt-alias-numerator" modelV (stripCaps rhs)
+      else classify op al "int-div-alias" model rhs
+    | _, _ => .unsupported "args"
+  | "i.neg", [xs] => match parseCV xs with
+    | some x => spec op (rI (-x.int) x.c) rhs
+    | none => .unsupported "args"
+  | "i.abs", [xs] => match parseCV xs with
+    | some x => spec op (rI x.int.natAbs x.c) rhs
+    | none => .unsupported "args"
+  | "i.double", [xs] => match parseCV xs with
+    | some x => spec op (rI (2 * x.int) (x.c + 1)) rhs
+    | none => .unsupported "args"
+  | "i.square", [xs] => match parseCV xs with
+    | some x => spec op (rI (x.int * x.int) (2 * x.c)) rhs
+    | none => .unsupported "args"
+  | "i.incr", [xs] => match parseCV xs with
+    | some x => spec op (rI (x.int + 1) (imax x.c 1 + 1)) rhs
+    | none => .unsupported "args"
+  | "i.decr", [xs] => match parseCV xs with
+    | some x => spec op (rI (x.int - 1) (imax x.c 1 + 1)) rhs
+    | none => .unsupported "args"
+  | "i.gcd", [xs, ys] =>
+    match parseCV xs, parseCV ys with
+    | some x, some y =>
+      let g := Nat.gcd x.int.natAbs y.int.natAbs
+      spec op (rI g (imax x.c y.c) ++ "," ++ b01 (g == 1)) rhs
+    | _, _ => .unsupported "args"
+  | "i.sqrt", [xs] => match parseCV xs with
+    | some x =>
+      if rhs == "none" then
+        if x.int < 0 then .ok else
+        match sqrtExact? x.int.toNat with
+        | some r => .bad "int-sqrt-missed" ("perfect square, root=" ++ hx r)
+        | none => .ok
+      else match parseCV (rhs.drop 3).toString with
+        | some r => if rhs.startsWith "ok:" ∧ r.v ≥ 0 ∧ r.v * r.v = x.int then .ok else .bad "int-sqrt-wrong" ("root does not square back: " ++ rhs)
+        | none => .unsupported "rhs"
+    | none => .unsupported "args"
+  | "i.cmp", [xs, ys] =>
+    match parseCV xs, parseCV ys with
+    | some x, some y => spec op (cmpS x.int y.int) rhs
+    | _, _ => .unsupported "args"
+  | "i.preds", [xs] => match parseCV xs with
+    | some x =>
+      let v := x.int
+      spec op (b01 (v == 0) ++ b01 (v != 0) ++ b01 (v == 1) ++ b01 (v % 2 == 1) ++ b01 (v % 2 == 0) ++ b01 (decide (v < 0)) ++ b01 (v.natAbs == 1)
+        ++ "," ++ toString (bitLen v.natAbs) ++ "," ++ toString x.c) rhs
+    | none => .unsupported "args"
+  | "i.lsh", [xs, ss] | "i.rsh", [xs, ss] =>
+    match parseCV xs, ss.toNat? with
+    | some x, some sh =>
+      let mag := if op == "i.lsh" then x.int.natAbs <<< sh else x.int.natAbs >>> sh
+      let c := if op == "i.lsh" then x.c + sh else imax (x.c - sh) 0
+      spec op (rI (if x.int < 0 then -(mag : Int) else mag) c) rhs
+    | _, _ => .unsupported "args"
+  | "i.and", [xs, ys, cs] | "i.or", [xs, ys, cs] | "i.xor", [xs, ys, cs] | "i.not", [xs, ys, cs] =>
+    match parseCV xs, parseCV ys, parseCap cs with
+    | some x, some y, some cap =>
+      let c := cap.getD (if op == "i.not" then x.c else imax x.c y.c)
+      let v := if op == "i.not" then -x.int - 1 else intBitwise (natOp (op.drop 2).toString) x.int y.int
+      -- the announced length of the result is that of the two's complement buffer (capacity+1 bits, whole bytes)
+      spec op (rI v (8 * ceilDiv (c.toNat + 1) 8)) rhs
+    | _, _, _ => .unsupported "args"
+  | "i.bytes", [xs] => match parseCV xs with
+    | some x =>
+      let ml := ceilDiv x.c.toNat 8
+      let tl := ceilDiv (x.c.toNat + 1) 8
+      spec op (bytesHex ((if x.int < 0 then 1 else 0) :: natToBytes x.int.natAbs ml) ++ "," ++ bytesHex (natToBytes (twosEncode x.int tl) tl)) rhs
+    | none => .unsupported "args"
+  | "i.fromtwos", [bs] => match parseBytes bs with
+    | some b => spec op (if b.isEmpty then "reject" else rI (twosDecode (bytesToNat b) b.length) (8 * b.length)) rhs
+    | none => .unsupported "args"
+  | "i.frombytes", [bs] => match parseBytes bs with
+    | some b => -- sign-magnitude: low bit of the first byte is the sign
+      match b with
+      | [] => spec op "reject" rhs
+      | s :: rest => spec op (rI (if s % 2 = 1 then -(bytesToNat rest : Int) else bytesToNat rest) (8 * rest.length)) rhs
+    | none => .unsupported "args"
+  | "i.int64", [vs] => match hexToInt? vs with
+    | some v => spec op (rI v 64 ++ "," ++ rI (v % ((2 ^ 64 : Nat) : Int)) 64) rhs
+    | none => .unsupported "args"
+  | "i.misc", [ch, xs, ys] =>
+    match parseCV xs, parseCV ys with
+    | some x, some y =>
+      let sel := if ch == "0" then x.int else y.int
+      let cn := if ch == "0" then x.int else -x.int
+      let inv := if x.int.natAbs = 1 then "ok:" ++ rI x.int (imax x.c 0) else "none"
+      spec op (rI sel (imax x.c y.c) ++ "," ++ rI cn x.c ++ "," ++ inv) rhs
+    | _, _ => .unsupported "args"
+  | "i.randlh", [ls, hs] =>
+    match parseCV ls, parseCV hs with
+    | some l, some h =>
+      if rhs == "err" then (if l.int ≥ h.int then .ok else .bad "randlh-refused" "non-empty range refused")
+      else match hexToInt? rhs with
+        | some v => if l.int ≤ v ∧ v < h.int then .ok else .bad "randlh-out-of-range" rhs
+        | none => .bad "randlh" rhs
+    | _, _ => .unsupported "args"
+  | "i.prime", [xs] => match parseCV xs with
+    | some x => spec "probable-prime" (b01 (decide (x.int ≥ 0) && probablyPrime x.int.toNat)) rhs
+    | none => .unsupported "args"
+  | "i.zero-sign", [_, _, _] => spec "int-negative-zero" "10,eq" rhs
+  | _, _ => .unsupported ("C17 op " ++ op)
+
+def handleMod (op : String) (args : List String) (rhs : String) : Verdict :=
+  match op, args with
+  | "m.new", [xs] => match parseCV xs with
+    | some x =>
+      let v := x.nat
+      spec op (if v = 0 then "none" else hx v ++ "," ++ toString (bitLen v) ++ "," ++ bytesHex (natToBytes v (ceilDiv (bitLen v) 8)) ++ "," ++ rN v (bitLen v)) rhs
+    | none => .unsupported "args"
+  | "m.mod", [ms, ss] =>
+    match hexToNat? ms, parseCV ss with
+    | some m, some s =>
+      let bl : Int := bitLen m
+      let x := s.int.natAbs
+      spec op (rN (x % m) bl ++ "," ++ rN (s.int % (m : Int)).toNat bl ++ "," ++ hi (symMod x m)) rhs
+    | _, _ => .unsupported "args"
+  | "m.quo", [ms, xs] =>
+    match hexToNat? ms, parseCV xs with
+    | some m, some x => let bl : Int := bitLen m; spec op (rN (trunc (x.nat / m) bl) bl) rhs
+    | _, _ => .unsupported "args"
+  | "m.modadd", [al, ms, xs, ys] | "m.modsub", [al, ms, xs, ys] | "m.modmul", [al, ms, xs, ys] | "m.modneg", [al, ms, xs, ys] =>
+    match hexToNat? ms, parseCV xs, parseCV ys with
+    | some m, some x, some y =>
+      let a : Int := x.nat
+      let b : Int := y.nat
+      let v : Int := if op == "m.modadd" then a + b else if op == "m.modsub" then a - b else if op == "m.modmul" then a * b else -a
+      classify op al "modulus-output-alias" (rN (v % (m : Int)).toNat (bitLen m)) rhs
+    | _, _, _ => .unsupported "args"
+  | "m.modinv", [al, ms, xs] =>
+    match hexToNat? ms, parseCV xs with
+    | some m, some x =>
+      let u := b01 (Nat.gcd x.nat m == 1)
+      let model := match invMod x.nat m with
+        | some v => "ok:" ++ hx v ++ "," ++ u
+        | none => "none," ++ u
+      -- modulus 1: documented convention (the inverse is recognised by x·x⁻¹ mod m = 1)
+      if m = 1 then mirror model rhs else classify "modinv" al "modinv-alias" model rhs
+    | _, _ => .unsupported "args"
+  | "m.moddiv", [ms, xs, ys] =>
+    match hexToNat? ms, parseCV xs, parseCV ys with
+    | some m, some x, some y =>
+      match invMod y.nat m with
+      | some yi => spec "moddiv" ("ok:" ++ hx (x.nat * yi % m)) rhs
+      | none => -- divisor not a unit: "none", or (even moduli) any solution u of y·u ≡ x
+        if rhs == "none" then .ok else
+        match hexToNat? (rhs.drop 3).toString with
+        | some u => if rhs.startsWith "ok:" ∧ u < m ∧ y.nat * u % m = x.nat % m then .ok else .bad "moddiv-non-unit" ("y*u != x: " ++ rhs)
+        | none => .bad "moddiv" rhs
+    | _, _, _ => .unsupported "args"
+  | "m.modexp", [ms, xs, es] | "m.modexpi", [ms, xs, es] =>
+    match hexToNat? ms, parseCV xs, parseCV es with
+    | some m, some x, some e =>
+      match powModI x.nat e.int m with
+      | some v => spec "modexp" (hx v) rhs
+      | none => .unsupported "negative exponent of a non-unit"
+    | _, _, _ => .unsupported "args"
+  | "m.multiexp", [ms, xss, es] =>
+    match hexToNat? ms, (splitComma xss).mapM parseCV, parseCV es with
+    | some m, some xs, some e => spec "modexp" (joinComma (xs.map fun x => hx (powMod x.nat e.nat m))) rhs
+    | _, _, _ => .unsupported "args"
+  | "m.modsqrt", [ms, xs] =>
+    match hexToNat? ms, parseCV xs with
+    | some m, some x => sqrtVerdict m x.nat rhs
+    | _, _ => .unsupported "args"
+  | "m.range", [ms, xs, ss] =>
+    match hexToNat? ms, parseCV xs, parseCV ss with
+    | some m, some x, some s => spec op (b01 (decide (x.nat < m)) ++ b01 (inRangeSym s.int m) ++ b01 (Nat.gcd x.nat m == 1)) rhs
+    | _, _, _ => .unsupported "args"
+  | _, _ => .unsupported ("C17 op " ++ op)
+
+def arithModulus (kind : String) (p q : Nat) : Nat := if kind == "opsf" then p * q * (p * q) else p * q
+
+def handleArith (op : String) (args : List String) (rhs : String) : Verdict :=
+  match op, args with
+  | "ar.modmul", [k, ps, qs, xs, ys] =>
+    match hexToNat? ps, hexToNat? qs, parseCV xs, parseCV ys with
+    | some p, some q, some x, some y => spec op (hx (x.nat * y.nat % arithModulus k p q)) rhs
+    | _, _, _, _ => .unsupported "args"
+  | "ar.modexp", [k, ps, qs, xs, es] | "ar.modexpi", [k, ps, qs, xs, es] =>
+    match hexToNat? ps, hexToNat? qs, parseCV xs, parseCV es with
+    | some p, some q, some x, some e =>
+      match powModI x.nat e.int (arithModulus k p q) with
+      | some v => spec "crt-modexp" (hx v) rhs
+      | none => .unsupported "negative exponent of a non-unit"
+    | _, _, _, _ => .unsupported "args"
+  | "ar.modinv", [k, ps, qs, xs] =>
+    match hexToNat? ps, hexToNat? qs, parseCV xs with
+    | some p, some q, some x => spec "crt-modinv" (optS ((invMod x.nat (arithModulus k p q)).map hx)) rhs
+    | _, _, _ => .unsupported "args"
+  | "ar.moddiv", [k, ps, qs, xs, ys] =>
+    match hexToNat? ps, hexToNat? qs, parseCV xs, parseCV ys with
+    | some p, some q, some x, some y =>
+      let m := arithModulus k p q
+      spec "crt-moddiv" (optS ((invMod y.nat m).map fun yi => hx (x.nat * yi % m))) rhs
+    | _, _, _, _ => .unsupported "args"
+  | "ar.multiexp", [k, ps, qs, xss, es] =>
+    match hexToNat? ps, hexToNat? qs, (splitComma xss).mapM parseCV, parseCV es with
+    | some p, some q, some xs, some e => spec "crt-modexp" (joinComma (xs.map fun x => hx (powMod x.nat e.nat (arithModulus k p q)))) rhs
+    | _, _, _, _ => .unsupported "args"
+  | "ar.exptoN", [ps, qs, xs] =>
+    match hexToNat? ps, hexToNat? qs, parseCV xs with
+    | some p, some q, some x => spec "crt-modexp" (hx (powMod x.nat (p * q) (p * q * (p * q)))) rhs
+    | _, _, _ => .unsupported "args"
+  | "crt.recombine", [ps, qs, as, bs] =>
+    match hexToNat? ps, hexToNat? qs, hexToNat? as, hexToNat? bs with
+    | some p, some q, some a, some b =>
+      match crt2 a b p q with
+      | some v => -- the unique solution below p*q, independently of the formula
+        if v < p * q ∧ v % p = a % p ∧ v % q = b % q then spec "crt-recombine" (hx v) rhs else .unsupported "model crt"
+      | none => spec "crt-recombine" "none" rhs
+    | _, _, _, _ => .unsupported "args"
+  | "crt.multi", [mss, rss] =>
+    match parseNatList? mss, parseNatList? rss with
+    | some ms, some rs =>
+      match crtList (rs.zip ms) with
+      | some (v, n) => if (rs.zip ms).all (fun (r, m) => v % m == r % m) ∧ v < n then spec "crt-recombine" (hx v) rhs else .unsupported "model crt"
+      | none => spec "crt-recombine" "none" rhs
+    | _, _ => .unsupported "args"
+  | "crt.precompute", [ps, qs] =>
+    match hexToNat? ps, hexToNat? qs with
+    | some p, some q => spec "crt-precompute" (b01 (Nat.gcd p q == 1)) rhs
+    | _, _ => .unsupported "args"
+  | _, _ => .unsupported ("C17 op " ++ op)
+
+def handleNum (op : String) (args : List String) (rhs : String) : Verdict :=
+  match op, args with
+  | "N.arith", [as, bs] =>
+    match hexToNat? as, hexToNat? bs with
+    | some a, some b =>
+      spec op (joinComma [hx (a + b), hx (a * b), (if a < b then "none" else "ok:" ++ hx (a - b)), hx (2 * a), hx (a * a), hx (a + 1),
+        (if a = 0 then "none" else "ok:" ++ hx (a - 1)), ordS a b ++ b01 (decide (a ≤ b)) ++ b01 (a == b)]) rhs
+    | _, _ => .unsupported "args"
+  | "N.div", [as, bs] =>
+    match hexToNat? as, hexToNat? bs with
+    | some a, some b =>
+      let exact := if b = 0 then "none" else if a % b = 0 then "ok:" ++ hx (a / b) else "none"
+      let round := if b = 0 then "none" else "ok:" ++ hx (a / b)
+      let ed := if b = 0 then "none" else "ok:" ++ hx (a / b) ++ ":" ++ hx (a % b)
+      spec op (joinComma [exact, exact, round, round, ed]) rhs
+    | _, _ => .unsupported "args"
+  | "N.edivvt", [as, bs] =>
+    match hexToNat? as, hexToNat? bs with
+    | some a, some b =>
+      classify "divvt-short-numerator-wrong" "a0" "" (if b = 0 then "none" else "ok:" ++ hx (a / b) ++ ":" ++ hx (a % b)) rhs
+    | _, _ => .unsupported "args"
+  | "N.misc", [as, bs, ms, ss] =>
+    match hexToNat? as, hexToNat? bs, hexToNat? ms, ss.toNat? with
+    | some a, some b, some m, some sh =>
+      spec op (joinComma [hx (Nat.gcd a b), b01 (Nat.gcd a b == 1), optS ((sqrtExact? a).map hx), hx (a <<< sh), hx (a >>> sh), hx (a % m), b01 (Nat.gcd a m == 1),
+        b01 (a == 0) ++ b01 (a == 1) ++ b01 (a % 2 == 0) ++ b01 (a % 2 == 1) ++ b01 (a != 0), toString (bitLen a), toString ((a >>> sh) % 2),
+        bytesHex (natToBytes a (ceilDiv (max (bitLen a) 1) 8))]) rhs
+    | _, _, _, _ => .unsupported "args"
+  | "Z.arith", [as, bs] =>
+    match hexToInt? as, hexToInt? bs with
+    | some a, some b =>
+      spec op (joinComma [hi (a + b), hi (a - b), hi (a * b), hi (-a), hx a.natAbs, hi (2 * a), hi (a * a), hi (a + 1), hi (a - 1),
+        (if a.natAbs = 1 then "ok:" ++ hi a else "none"),
+        ordS a b ++ b01 (decide (a ≤ b)) ++ b01 (a == b) ++ b01 (decide (a < 0)) ++ b01 (decide (a > 0)) ++ b01 (a == 0) ++ b01 (a == 1) ++ b01 (a % 2 == 0) ++ b01 (Nat.gcd a.natAbs b.natAbs == 1)]) rhs
+    | _, _ => .unsupported "args"
+  | "Z.div", [as, bs] | "Z.divvt", [as, bs] =>
+    match hexToInt? as, hexToInt? bs with
+    | some a, some b =>
+      let t := tdivmod a b
+      let e := edivmod a b
+      let exact := if b = 0 then "none" else if t.2 = 0 then "ok:" ++ hi t.1 else "none"
+      let round := if b = 0 then "none" else "ok:" ++ hi t.1
+      let ed := if b = 0 then "none" else "ok:" ++ hi e.1 ++ ":" ++ hi e.2
+      if op == "Z.div" then spec op (joinComma [exact, round, ed]) rhs
+      else classify "divvt-short-numerator-wrong" "a0" "" (joinComma [exact, round, ed]) rhs
+    | _, _ => .unsupported "args"
+  | "Z.misc", [as, ms, ss] =>
+    match hexToInt? as, hexToNat? ms, ss.toNat? with
+    | some a, some m, some sh =>
+      let bl := max (bitLen a.natAbs) 1  -- num.Int announces at least one bit
+      let ml := ceilDiv bl 8
+      let tl := ceilDiv (bl + 1) 8
+      let sg (n : Nat) : Int := if a < 0 then -(n : Int) else n
+      spec op (joinComma [hx (a % (m : Int)).toNat, b01 (decide (0 ≤ a) && decide (a < m)) ++ b01 (inRangeSym a m) ++ b01 (unit a m),
+        hi (sg (a.natAbs <<< sh)), hi (sg (a.natAbs >>> sh)),
+        bytesHex ((if a < 0 then 1 else 0) :: natToBytes a.natAbs ml), bytesHex (natToBytes a.natAbs ml), bytesHex (natToBytes (twosEncode a tl) tl)]) rhs
+    | _, _, _ => .unsupported "args"
+  | "Q.arith", [xs, ys] =>
+    match parseRat xs, parseRat ys with
+    | some (an, ad), some (bn, bd) =>
+      let a : Int := ad
+      let b : Int := bd
+      let div := if bn = 0 then "none" else "ok:" ++ ratS (if bn < 0 then -(an * b) else an * b) (ad * bn.natAbs)
+      let inv := if an = 0 then "none" else "ok:" ++ ratS (if an < 0 then -a else a) an.natAbs
+      let fl := an / a
+      let ce := if an % a = 0 then fl else fl + 1
+      spec op (joinComma [ratS (an * b + bn * a) (ad * bd), ratS (an * b - bn * a) (ad * bd), ratS (an * bn) (ad * bd), div, inv, ratS (-an) ad, ratCanon an ad,
+        "ok:" ++ hi ce, "ok:" ++ hi fl,
+        b01 (decide (an * b ≤ bn * a)) ++ b01 (an * b == bn * a) ++ b01 (an % a == 0) ++ b01 (an == 0) ++ b01 (an == a) ++ b01 (decide (an < 0)) ++ b01 (decide (an > 0))]) rhs
+    | _, _ => .unsupported "args"
+  | "Zn.arith", [ms, as, bs, es, ss, bitss] =>
+    match hexToNat? ms, hexToNat? as, hexToNat? bs, hexToInt? es, ss.toNat?, bitss.toNat? with
+    | some m, some a0, some b0, some e, some sh, some bits =>
+      let a := a0 % m
+      let b := b0 % m
+      let mi : Int := m
+      let inv := invMod a m
+      let unitA := Nat.gcd a m == 1
+      match powModI a e m with
+      | none => .unsupported "negative exponent of a non-unit"
+      | some pe =>
+        let fields := [hx a, hx ((a + b) % m), hx (((a : Int) - b) % mi).toNat, hx (a * b % m), hx ((-(a : Int)) % mi).toNat, hx (2 * a % m), hx (a * a % m),
+          hx ((a + 1) % m), hx (((a : Int) - 1) % mi).toNat, hx (powMod a e.natAbs m), hx pe, hx (powMod a (e.natAbs % 2 ^ bits) m),
+          (if unitA then optS (inv.map hx) else "none"),
+          (match invMod b m with
+            | some bi => "ok:" ++ hx (a * bi % m)
+            | none => "?"),
+          b01 unitA ++ b01 (a == 0) ++ b01 (a == 1) ++ b01 (a == b) ++ b01 (decide (a ≤ b)),
+          hx ((a <<< sh) % m), hx ((a >>> sh) % m), hx a]
+        -- modulus 1 and divisions by non-units follow the ModInv/ModDiv conventions checked on the m.* lines
+        let got := splitComma rhs
+        if got.length ≠ fields.length then .bad "Zn.arith" ("field count: " ++ rhs) else
+        let bad := (fields.zip got).zipIdx.filter fun ((f, g), i) => f != g && !(i == 13 && f == "?") && !(m == 1 && (i == 12 || i == 13))
+        if bad.isEmpty then .ok else .bad "Zn.arith" ("expected=" ++ joinComma fields ++ " observed=" ++ rhs)
+    | _, _, _, _, _, _ => .unsupported "args"
+  | "Zn.sqrt", [ms, as] =>
+    match hexToNat? ms, hexToNat? as with
+    | some m, some a => sqrtVerdict m a rhs
+    | _, _ => .unsupported "args"
+  | _, _ => .unsupported ("C17 op " ++ op)
+
+def cardParse (s : String) : Option (Option (Option Nat)) :=   -- some none = unknown, some (some none) = infinite
+  if s == "unk" then some none else if s == "inf" then some (some none) else (hexToNat? s).map fun n => some (some n)
+
+def handleMisc (op : String) (args : List String) (rhs : String) : Verdict :=
+  match op, args with
+  | "jacobi", [xs, ys] =>
+    match hexToInt? xs, hexToNat? ys with
+    | some x, some y =>
+      let model := if y % 2 = 0 then "reject" else toString (jacobi x y)
+      if model == rhs then .ok
+      else if x < 0 then .bad "jacobi-negative-numerator" ("expected=" ++ model ++ " observed=" ++ rhs)
+      else .bad "jacobi" ("expected=" ++ model ++ " observed=" ++ rhs)
+    | _, _ => .unsupported "args"
+  | "zn.unit", [known, ps, qs, as, bs, es] =>
+    match hexToNat? ps, hexToNat? qs, hexToNat? as, hexToNat? bs, hexToInt? es with
+    | some p, some q, some a0, some b0, some e =>
+      let n := p * q
+      let a := a0 % n
+      let b := b0 % n
+      let ua := Nat.gcd a n == 1
+      let ub := Nat.gcd b n == 1
+      if !(ua && ub) then spec "unit-membership" ("notunit:" ++ b01 (!ua) ++ b01 (!ub)) rhs else
+      match invMod a n, invMod b n, powModI a e n with
+      | some ai, some bi, some pe =>
+        let qr := if known == "1" then b01 (isQR a p && isQR a q) else "na"
+        spec "unit-group" (joinComma [hx (a * b % n), hx ai, hx (a * bi % n), hx (a * a % n), hx pe, hx (powMod a e.natAbs n), toString (jacobi a n), qr]) rhs
+      | _, _, _ => .unsupported "model inverse"
+    | _, _, _, _, _ => .unsupported "args"
+  | "card", [as, bs] =>
+    match cardParse as, cardParse bs with
+    | some a, some b =>
+      let r (c : Option (Option Nat)) : String := match c with
+        | none => "unk" | some none => "inf" | some (some n) => hx n
+      let add : Option (Option Nat) := match a, b with
+        | none, _ => none | _, none => none
+        | some none, _ => some none | _, some none => some none
+        | some (some x), some (some y) => some (some (x + y))
+      let mul : Option (Option Nat) := match a, b with
+        | none, _ => none | _, none => none
+        | some none, _ => some none | _, some none => some none
+        | some (some x), some (some y) => some (some (x * y))
+      -- only the finite/finite fields are compared as specification; mixed cases mirror the documented absorbing rules
+      match a, b with
+      | some (some x), some (some y) =>
+        spec op (joinComma [r add, r mul, hx (x - y), b01 (decide (x ≤ y)) ++ b01 (x == y) ++ b01 (x == 0), toString (8 * ceilDiv (bitLen x) 8)]) rhs
+      | _, _ => .ok
+    | _, _ => .unsupported "args"
+  | _, _ =>
+    if op.startsWith "prime." then
+      match args, hexToNat? rhs with
+      | [bs], some p =>
+        match bs.toNat? with
+        | some bits =>
+          match primeForm (op.drop 6).toString bits p with
+          | none => .ok
+          | some "bitlen" => .bad (if op == "prime.blum" then "blum-prime-bitlen" else "prime-bitlen") ("requested " ++ bs ++ " bits, got " ++ toString (bitLen p))
+          | some why => .bad ("prime-" ++ why) rhs
+        | none => .unsupported "args"
+      | _, _ => .bad "prime-generation-failed" rhs
+    else if op.startsWith "primepair." then
+      match args, parseNatList? rhs with
+      | [bs], some [p, q] =>
+        match bs.toNat? with
+        | some bits =>
+          let kind := (op.drop 10).toString
+          match primeForm kind (bits / 2) p, primeForm kind (bits / 2) q with
+          | none, none => if p = q then .bad "primepair-equal" rhs else if bitLen (p * q) ≠ bits then .bad "primepair-product-bitlen" rhs else .ok
+          | some why, _ => .bad ("primepair-" ++ why) rhs
+          | _, some why => .bad ("primepair-" ++ why) rhs
+        | none => .unsupported "args"
+      | _, _ => .bad "prime-generation-failed" rhs
+    else .unsupported ("C17 op " ++ op)
+
+def handle (op : String) (args : List String) (rhs : String) : Verdict :=
+  if op.startsWith "n." then handleNat op args rhs
+  else if op.startsWith "i." then handleInt op args rhs
+  else if op.startsWith "m." then handleMod op args rhs
+  else if op.startsWith "ar." || op.startsWith "crt." then handleArith op args rhs
+  else if op.startsWith "N." || op.startsWith "Z." || op.startsWith "Q." || op.startsWith "Zn." then handleNum op args rhs
+  else handleMisc op args rhs
 
 end BronVerif.Drive.C17
